@@ -1039,6 +1039,24 @@ def s_local_scalar(func, args, kwargs):
     raise EngineGap("_local_scalar_dense on a symbolic real (a C-level .item())")
 
 
+@special("_is_all_true")
+def s_is_all_true(func, args, kwargs):
+    conj = True
+    for x in args[0].flat():
+        conj = T.land(conj, T.truth(x))
+    r = T.ctx().decide(conj)
+    return scalar_tensor(r, torch.bool)
+
+
+@special("_is_any_true")
+def s_is_any_true(func, args, kwargs):
+    dis = False
+    for x in args[0].flat():
+        dis = T.lor(dis, T.truth(x))
+    r = T.ctx().decide(dis)
+    return scalar_tensor(r, torch.bool)
+
+
 @special("is_nonzero")
 def s_is_nonzero(func, args, kwargs):
     return T.ctx().decide(T.truth(args[0].flat()[0]))
